@@ -86,6 +86,8 @@ type Person struct {
 	// SubTags are stored one level deeper, under tags/sub/<key> (nested map elements, symbol tags.sub.<key>)
 	SubTags map[string]Val `json:"subTags,omitempty"`
 	NoTags  bool           `json:"noTags,omitempty"` // no tags bucket at all
+	// Staff: the person has child data in the "staff" child store (bucket ext_staff inside the person's bucket)
+	Staff bool `json:"staff,omitempty"`
 }
 
 type Place struct {
@@ -125,6 +127,9 @@ type ScanSchema struct {
 	Variant int
 	People  *boltz.BaseStore[boltz.Entity]
 	Places  *boltz.BaseStore[boltz.Entity]
+	// Staff is a child store over People (population: people with child data), StaffX an extended one (all people)
+	Staff  *boltz.BaseStore[boltz.Entity]
+	StaffX *boltz.BaseStore[boltz.Entity]
 }
 
 // symbol layout helpers (variant bit 0: symbol name != bucket key; bit 1: some symbols under a prefix path)
@@ -172,6 +177,12 @@ func NewScanSchema(variant int) *ScanSchema {
 	q.AddSymbol("n", ast.NodeTypeInt64)
 	q.AddSetSymbol("businesses", ast.NodeTypeString)
 	q.AddFkSetSymbol("people", p)
+
+	s.Staff = boltz.NewBaseStore(boltz.StoreDefinition[boltz.Entity]{Parent: p, BasePath: []string{"ext_staff"}})
+	p.GrantSymbols(s.Staff)
+	s.Staff.AddSymbol("grade", ast.NodeTypeString)
+	s.StaffX = boltz.NewBaseStore(boltz.StoreDefinition[boltz.Entity]{Parent: p, BasePath: []string{"ext_staffx"}}).Extended()
+	p.GrantSymbols(s.StaffX)
 	return s
 }
 
@@ -239,6 +250,9 @@ func (s *ScanSchema) Write(db *bbolt.DB, d *Dataset) error {
 			setSet(b, "nums", pe.Nums)
 			setSet(b, "places", pe.Places)
 			setSet(b, "peers", pe.Peers)
+			if pe.Staff {
+				b.GetOrCreatePath("ext_staff").SetString("grade", "g"+pe.ID, nil)
+			}
 			if !pe.NoTags {
 				target := b
 				if pre := s.prefixOf("tags"); len(pre) > 0 {
